@@ -32,6 +32,7 @@ type ScopeItem struct {
 	Include []string          `json:"include"`
 	Exclude map[string]string `json:"exclude"` // glob -> reason (reported as not proved / out of scope)
 	Lock    *bool             `json:"lock"`
+	Facets  []string          `json:"facets"` // contract facets for this function only (default: the check's facets)
 }
 
 // BoundedCheck: a replay driver run on the unchanged tree as a bounded differential check of the real code (thorough
@@ -115,10 +116,18 @@ func cmdCheck(args []string) int {
 	if d, err := os.ReadFile(filepath.Join(vd, "known_findings.json")); err == nil {
 		json.Unmarshal(d, &known)
 	}
-	for _, f := range cfg.Facets {
-		ActiveFacets[f] = true
+	setFacets := func(fs []string) string {
+		for k := range ActiveFacets {
+			delete(ActiveFacets, k)
+		}
+		for _, f := range fs {
+			ActiveFacets[f] = true
+		}
+		return strings.Join(fs, ",")
 	}
+	curFacets := setFacets(cfg.Facets)
 	p, e := loadAll()
+	extraAssumptions := map[string]bool{}
 	timeout := 10
 	if cfg.Timeout > 0 {
 		timeout = cfg.Timeout
@@ -131,6 +140,18 @@ func cmdCheck(args []string) int {
 	frScope := map[*FuncResult]ScopeItem{}
 	undecided := []string{}
 	for _, sc := range cfg.Scope {
+		want := cfg.Facets
+		if sc.Facets != nil {
+			want = sc.Facets
+		}
+		if strings.Join(want, ",") != curFacets {
+			// a scope item with its own facets: the contracts are parsed again with exactly those facets active
+			for a := range e.assumptions {
+				extraAssumptions[a] = true
+			}
+			curFacets = setFacets(want)
+			p, e = loadAll()
+		}
 		fn := p.funcByKey[sc.Func]
 		if fn == nil {
 			undecided = append(undecided, "contract anchor missing: function "+sc.Func+" not found")
@@ -298,6 +319,9 @@ func cmdCheck(args []string) int {
 	}
 	assumptions := append([]string{}, cfg.Assumptions...)
 	assumptions = append(assumptions, "integers: exact two's-complement semantics (wrap-around modelled with mod)", "slice/map/string lengths <= 2^48", "byte slices that flow into comparisons/encoders are immutable values")
+	for a := range extraAssumptions {
+		e.assumptions[a] = true
+	}
 	for _, a := range sortedKeys(e.assumptions) {
 		assumptions = append(assumptions, a)
 	}
